@@ -21,7 +21,7 @@ ASSUMPTIONS = ['tapers are those returned by dpss of the same tree (their correc
 
 def bounds(tier):
     q = tier == 'quick'
-    return {'N': [16, 17, 32] if q else [16, 17, 32, 64, 256, 1024], 'NW': [1.5, 2, 2.5, 4], 'k': 'default and every 2..floor(2NW)', 'NFFT': 'N, N+1, 2N, 2N+1',
+    return {'N': [16, 17, 32] if q else [16, 17, 32, 64, 256, 1024], 'NW': [1.5, 2, 2.5, 4, 1.8, 2.3], 'k': 'default and every 2..floor(2NW)', 'NFFT': 'N, N+1, 2N, 2N+1',
             'methods': ['unity', 'eigen', 'adapt'], 'families': 'noise-like + tones, real and complex', 'histories': 'every ordered pair of (NW in {2,2.5,4}) x (k in {default,3}) x (unity, adapt) on one object, recomputed explicitly'}
 
 
@@ -34,7 +34,7 @@ def shards(tier):
     out = []
     for N in ([16, 17, 32] if q else [16, 17, 32, 64, 256, 1024]):
         for cplx in (False, True):
-            for NW in (1.5, 2.0, 2.5, 4.0):
+            for NW in (1.5, 2.0, 2.5, 4.0, 1.8, 2.3):
                 out.append((N, cplx, NW))
     return out
 
@@ -44,6 +44,8 @@ def run_shard(desc, R, tier):
     if not NW < N / 2.0:
         return
     fam = (A.gen_cplx(N) + A.tones_cplx(N)) if cplx else (A.gen_real(N) + A.tones_real(N))
+    if not cplx and NW in (2.0, 2.3):
+        fam = A.pcm(N) + A.pcm64(N) + fam          # integer sample dtypes (WAV data) given to pmtm and to the class
     if N >= 256:
         fam = fam[:3] + fam[-3:]
     elif tier == 'quick':
@@ -58,6 +60,8 @@ def run_shard(desc, R, tier):
                 for b in cfgs:
                     if a != b:
                         eval_point({'kind': 'history', 'x': x, 'first': a, 'second': b, 'NFFT': N + 1, 'name': name}, R)
+                for sd in ('twosided', 'centerdc'):
+                    eval_point({'kind': 'history', 'x': x, 'first': a, 'second': a, 'NFFT': N + 1, 'name': name, 'sides': sd}, R)
     for name, x in fam:
         for k in ks:
             for nf in (N, N + 1, 2 * N, 2 * N + 1):
@@ -76,6 +80,8 @@ def eval_history(pt, R):
     try:
         o = spectrum.MultiTapering(x, NW=a['NW'], k=a['k'], method=a['method'], NFFT=pt['NFFT'], scale_by_freq=False)
         o()
+        if pt.get('sides'):
+            o.sides = pt['sides']
         o.NW, o.k, o.method = b['NW'], b['k'], b['method']
         o()
         got = np.asarray(o.psd)
@@ -96,7 +102,7 @@ def eval_point(pt, R):
     N = len(x)
     NW, k, nf, meth = float(pt['NW']), pt['k'], int(pt['NFFT']), pt['method']
     cplx = np.iscomplexobj(x)
-    feats = {'method': meth, 'dtype': 'complex' if cplx else 'real', 'nfft': 'odd' if nf % 2 else 'even'}
+    feats = {'method': meth, 'dtype': 'complex' if cplx else ('int' if x.dtype.kind in 'iu' else 'real'), 'nfft': 'odd' if nf % 2 else 'even'}
     R.point(pt)
     R.calls(2)
     try:
@@ -108,11 +114,11 @@ def eval_point(pt, R):
         R.viol('eigenspectra', dict(feats, exc=type(e).__name__), pt, repr(e), None, 'pmtm raised inside its domain')
         return
     K = tapers.shape[1]
-    ref = np.stack([rdft.dft(tapers[:, j] * x, nf) for j in range(K)], axis=0)
+    ref = np.stack([rdft.dft(tapers[:, j] * A.prom(x), nf) for j in range(K)], axis=0)
     R.check(Sk.shape == ref.shape and close(Sk, ref, 1e-9, 0.0), 'eigenspectra', feats, pt, Sk, ref, 'eigenspectrum j != NFFT-point DFT of taper_j * data', outs=(Sk,),
             err=relerr(Sk, ref) if Sk.shape == ref.shape else None)
     R.check(ev.shape == lam.shape and close(ev, lam, 1e-12, 0.0), 'eigenvalues', feats, pt, ev, lam, 'returned eigenvalues are not the taper concentration ratios')
-    sig2 = float(np.real(np.vdot(x, x))) / N
+    sig2 = float(np.real(np.vdot(A.prom(x), A.prom(x)))) / N
     P = np.abs(ref) ** 2               # (K, NFFT)
     if meth == 'unity':
         R.check(w.shape == (K, 1) and np.all(w == 1.0), 'weights_unity', feats, pt, w, 'ones', "weights of 'unity' are not all 1")
